@@ -1339,3 +1339,36 @@ def r07_19_unparsed_fields_come_from_the_template(ctx: Ctx) -> RuleResult:
     if n_sites == 0:
         raise AnalysisError("no in-place update of a year-of-era attribute found in the text layer (the two-digit-year century is expected)")
     return rr
+
+
+@rule("C07")
+def r07_20_format_helpers_never_shorten_the_output(ctx: Ctx) -> RuleResult:
+    """Format actions append to one shared StringBuilder, each writing its own field.  A helper that SHORTENS the builder removes
+    text another action wrote: `_append_fraction_truncate` drops a preceding '.' when the fraction is zero - also when that '.'
+    is a quoted literal (`ss'.'FFF`), an escaped character or the culture's time separator, which the parser then still expects.
+    No number-formatting helper assigns to / decrements the builder's length or deletes from it."""
+    rr = RuleResult("R07.20", "number-formatting helpers only append: none shortens the output buffer (text written by another format action is never removed)", min_instances=5)
+    M = ctx.M
+    fh = M.cls("_FormatHelper", required=True)
+    for f in sorted(fh.all_defs, key=lambda g: g.qual):
+        if isinstance(f.node, ast.Lambda):
+            continue
+        bparams = {p.arg for p in f.params if p.annotation is not None and "StringBuilder" in unparse(p.annotation)}
+        if not bparams:
+            continue
+        rr.inst()
+        bad = None
+        for n in own_nodes(f.node):
+            tg = [n.target] if isinstance(n, (ast.AugAssign, ast.AnnAssign)) else (n.targets if isinstance(n, ast.Assign) else [])
+            for t in tg:
+                if isinstance(t, ast.Attribute) and t.attr == "length" and isinstance(t.value, ast.Name) and t.value.id in bparams:
+                    bad = bad or n
+            if isinstance(n, ast.Call) and isinstance(n.func, ast.Attribute) and n.func.attr in ("remove", "clear", "pop") and isinstance(n.func.value, ast.Name) and n.func.value.id in bparams:
+                bad = bad or n
+            if isinstance(n, ast.Delete):
+                bad = bad or n
+        if bad is None:
+            rr.ok({"helper": f.qual})
+        else:
+            rr.fail(f.qual, f"`{unparse(bad)[:60]}` shortens the output buffer: for a zero fraction the character before it is removed whenever it is '.', whichever format action wrote it (`HH:mm:ss'.'FFF` writes '01:02:03' and then cannot parse it: the quoted '.' is expected)", ctx.loc(f, bad))
+    return rr
